@@ -211,6 +211,11 @@ func body(spec RunSpec, prof *Profile, dir string, res *RunResult) {
 		if len(res.Fatal) > 0 || spec.Trace {
 			res.Events = s.Events
 		}
+		if spec.Trace && rc.W != nil && os.Getenv("VERIF_TRACEALL") != "" {
+			for _, o := range rc.W.Net.Obs {
+				res.Events = append(res.Events, Event{Seq: o.Seq, Kind: "http", Task: o.Caller, Label: fmt.Sprintf("%s %s %d req=%x resp=%x", o.Method, o.Path, o.Status, sha(o.Req)[:4], sha(o.Resp)[:4])})
+			}
+		}
 		if spec.Trace || spec.Index%97 == 0 {
 			res.Sample = sampleOf(rc)
 		}
